@@ -369,12 +369,12 @@ def probe_modules():
                 raise TranslatorError("compiler crashed on positional probe %s/%s: %r" % (pos, k, r))
             if st == "ok":
                 accepted.append(k)
-        if len(accepted) == 1:
-            pos_req.append((pos, accepted[0]))
-        elif len(accepted) == 3:
+        if len(accepted) == 3:
             pass
+        elif accepted:
+            pos_req.append((pos, "[" + "; ".join(accepted) + "]"))
         else:
-            raise TranslatorError("position %s accepts kinds %s" % (pos, accepted))
+            raise TranslatorError("position %s accepts no kind" % pos)
     out["pos_req"] = pos_req
     # parameter declarations
     decl = []
